@@ -3,15 +3,23 @@
 From PlzV Require Import Base.Harness Model.Sched Proof.Sched_Base Proof.Sched_Inv.
 From Coq Require Import Lia Arith.
 
-Lemma dead_facts : forall s d, J s d -> fin s d = true ->
-  qr_ok s d = false /\ async_live (asy s d) = false /\ cnt d (taken s) = 0 /\ cnt d (building s) = 0 /\
-  cas cas_noneed (ts s d) = None /\ (6 <= rank (ts s d))%N.
+(* completed: Built or later in the state order *)
+Definition completed (st : tstate) : bool := N.leb 6 (rank st).
+
+Lemma fin_completed : forall s d, J s d -> fin s d = true -> completed (ts s d) = true.
 Proof.
-  intros s d (HA & HB & HS) Hf. unfold shape, q in HS. unfold qr_ok.
+  intros s d (HA & HB & HS) Hf. unfold shape in HS. unfold completed.
+  destruct (ts s d); cbn in *; dand; try congruence; try contradiction; reflexivity.
+Qed.
+
+Lemma dead_facts : forall s d, J s d -> completed (ts s d) = true ->
+  qr_ok s d = false /\ async_live (asy s d) = false /\ cnt d (taken s) = 0 /\ cnt d (building s) = 0 /\
+  cas cas_noneed (ts s d) = None.
+Proof.
+  intros s d (HA & HB & HS) Hc. unfold shape, q in HS. unfold qr_ok, completed in *. apply N.leb_le in Hc.
   destruct (async_live (asy s d)) eqn:El.
-  - rewrite (HB eq_refl) in HS. cbn in HS. dand. congruence.
-  - destruct (ts s d); cbn in *; dand; try congruence; try contradiction;
-      repeat split; try reflexivity; try lia; repeat match goal with H : _ \/ _ |- _ => destruct H; dand end; try congruence; lia.
+  - rewrite (HB eq_refl) in Hc. cbn in Hc. lia.
+  - destruct (ts s d); cbn in *; dand; try lia; try contradiction; repeat split; try reflexivity; lia.
 Qed.
 
 Ltac use_dead d :=
@@ -19,10 +27,10 @@ Ltac use_dead d :=
   | Hd : qr_ok ?s d = false |- _ => rewrite ?Hd
   end.
 
-Theorem dead_stable : forall g s l d, (forall t, J s t) -> fin s d = true -> enabled g s l = true ->
-  ts (apply g s l) d = ts s d /\ fin (apply g s l) d = true.
+Theorem completed_stable : forall g s l d, (forall t, J s t) -> completed (ts s d) = true -> enabled g s l = true ->
+  ts (apply g s l) d = ts s d /\ (fin s d = true -> fin (apply g s l) d = true).
 Proof.
-  intros g s l d HJ Hf He. destruct (dead_facts s d (HJ d) Hf) as (Hq & Hl & Ht & Hb & Hc & Hr).
+  intros g s l d HJ Hcp He. destruct (dead_facts s d (HJ d) Hcp) as (Hq & Hl & Ht & Hb & Hc).
   destruct l; unfold enabled in He; cbv beta iota in He; cbn [apply]; btrue.
   - destruct (initq s); cbn; auto.
   - autorewrite with proj. cbn. auto.
@@ -58,7 +66,7 @@ Proof.
     assert (1 <= cnt t (building s)) by (apply mem_cnt; assumption). lia.
   - cbn. autorewrite with proj. cbn. destruct (Nat.eq_dec d t) as [->|Hne]; [|rewrite upd_other by exact Hne; auto].
     assert (1 <= cnt t (building s)) by (apply mem_cnt; assumption). lia.
-  - cbn. split; [reflexivity|]. destruct (Nat.eq_dec d t) as [->|Hne]; [apply upd_same | rewrite upd_other by exact Hne; exact Hf].
+  - cbn. split; [reflexivity|]. intros Hf. destruct (Nat.eq_dec d t) as [->|Hne]; [apply upd_same | rewrite upd_other by exact Hne; exact Hf].
   - autorewrite with proj. cbn. auto.
   - cbn. auto.
   - cbn. auto.
@@ -70,7 +78,8 @@ Definition done_ok (s : state) (d : nat) : Prop := fin s d = true /\ is_built (t
 
 Lemma done_ok_stable : forall g s l d, (forall t, J s t) -> done_ok s d -> enabled g s l = true -> done_ok (apply g s l) d.
 Proof.
-  intros g s l d HJ [Hf Hb] He. destruct (dead_stable g s l d HJ Hf He) as [H1 H2]. split; [exact H2 | rewrite H1; exact Hb].
+  intros g s l d HJ [Hf Hb] He.
+  destruct (completed_stable g s l d HJ (fin_completed s d (HJ d) Hf) He) as [H1 H2]. split; [exact (H2 Hf) | rewrite H1; exact Hb].
 Qed.
 
 (* past Pending (and not "dependency failed"): the build task of the target has been handed out *)
